@@ -795,8 +795,12 @@ func mutateCase(t failer, check string, ch chooser) {
 		op = byteOps[ch.Pick("op", len(byteOps))]
 		mut = byteMutate(ch, op, orig, other)
 	}
-	class, nontrivial, violation := evalMutation(w, target, mut)
 	kind := targetKind(target)
+	if (kind == "sod" || kind == "dg") && evid.Open("C12", c12F7a) && lyingLength(mut) {
+		evid.Excluded("C12/" + c12F7a) // allocation before the length check: C12's open finding, not a verdict
+		return
+	}
+	class, nontrivial, violation := evalMutation(w, target, mut)
 	evid.Case("mutation:"+kind+":"+class, nontrivial, hex.EncodeToString(issuer.Digest("sha256", mut))+spec.Name+target, nil)
 	evid.Count("mutation-op:"+op, 1)
 	evid.Count("mutation-world:"+spec.Name, 1)
